@@ -34,8 +34,8 @@ def calibrate():
 
 def strategy(tier):
     aux = st.fixed_dictionaries({"seed": st.integers(0, 20), "blocks": st.booleans(), "special": st.booleans(),
-                                 "symbols": st.booleans()})
-    return st.tuples(Lm.case_st(tier, pdata=True, ivs=True), aux).map(lambda t: {**t[0], "aux": t[1]})
+                                 "symbols": st.booleans(), "align": st.sampled_from([False, False, True])})
+    return st.tuples(Lm.case_st(tier, pdata=True, ivs=True, palign=True), aux).map(lambda t: {**t[0], "aux": t[1]})
 
 
 def budget(tier):
